@@ -138,10 +138,18 @@ func genPlanC01(t *rapid.T) Plan {
 		case k < 14:
 			p.Ops = append(p.Ops, genPub(t, &p, false))
 		case k == 14:
-			op := Op{K: "burst", C: rapid.IntRange(0, p.NClients-1).Draw(t, "bc"), Topic: genName(t), PQ: byte(rapid.IntRange(0, 1).Draw(t, "bq"))}
+			op := Op{K: "burst", C: rapid.IntRange(0, p.NClients-1).Draw(t, "bc"), Topic: genName(t), PQ: byte(rapid.IntRange(0, 2).Draw(t, "bq"))}
 			limit := p.BufSize - 8192 - 64
-			for j, n := 0, rapid.IntRange(2, 12).Draw(t, "nburst"); j < n; j++ {
-				op.Burst = append(op.Burst, rapid.SampledFrom([]int{8, 40, 900, 4000, limit, limit, limit - 3000}).Draw(t, "bsize"))
+			nb := rapid.IntRange(2, 12).Draw(t, "nburst")
+			if op.PQ == 2 && rapid.Bool().Draw(t, "long-burst") {
+				nb = rapid.IntRange(17, 40).Draw(t, "nlong") // more QoS 2 exchanges open at once than the receiver's queue holds at first
+			}
+			for j := 0; j < nb; j++ {
+				if nb > 12 {
+					op.Burst = append(op.Burst, rapid.SampledFrom([]int{8, 40, 200}).Draw(t, "bsize"))
+				} else {
+					op.Burst = append(op.Burst, rapid.SampledFrom([]int{8, 40, 900, 4000, limit, limit, limit - 3000}).Draw(t, "bsize"))
+				}
 			}
 			p.Ops = append(p.Ops, op)
 		case k == 15 && rapid.Bool().Draw(t, "filler-instead"):
@@ -286,6 +294,9 @@ func genPlanC08(t *rapid.T) Plan {
 			default:
 				op.Retain = true
 			}
+			if rapid.IntRange(0, 4).Draw(t, "same-payload") == 0 {
+				op.Same = true // the same state announced again, possibly at another QoS
+			}
 			if p.NInproc > 0 && rapid.IntRange(0, 7).Draw(t, "spub") == 0 {
 				op.K = "spub"
 			}
@@ -327,7 +338,12 @@ func genPlanC10(t *rapid.T) Plan {
 		if rapid.IntRange(0, 6).Draw(t, "flip") == 0 {
 			clean = !clean
 		}
-		return Op{K: "connect", C: c, Clean: clean}
+		op := Op{K: "connect", C: c, Clean: clean}
+		if rapid.IntRange(0, 3).Draw(t, "will") == 0 {
+			// a will, sometimes on a topic nobody can receive (what happens to the will must not decide what happens to the session)
+			op.Will = &Will{Topic: rapid.SampledFrom([]string{"w/x", "$SYS/w", "$w"}).Draw(t, "wt"), Size: 3, QoS: byte(rapid.IntRange(0, 1).Draw(t, "wq"))}
+		}
+		return op
 	}
 	for i := 0; i < nops; i++ {
 		c := rapid.IntRange(0, p.NClients-1).Draw(t, "c")
@@ -408,7 +424,7 @@ func genPlanC09(t *rapid.T) Plan {
 			}
 			p.Ops = append(p.Ops, op)
 		case k < 15:
-			p.Ops = append(p.Ops, Op{K: rapid.SampledFrom([]string{"disconnect", "disconnect-close", "requests-disconnect-close", "close", "close", "garbage"}).Draw(t, "end"), C: c})
+			p.Ops = append(p.Ops, Op{K: rapid.SampledFrom([]string{"disconnect", "disconnect-close", "requests-disconnect-close", "close", "close", "garbage", "bad-disconnect"}).Draw(t, "end"), C: c})
 		case k < 17 && rapid.IntRange(0, 2).Draw(t, "second-connect") == 0:
 			p.Ops = append(p.Ops, Op{K: "second-connect", C: c})
 		case k < 17:
